@@ -486,6 +486,23 @@ func (s *Sim) cbAction(t *txn, o *ObsInst, oi int, act int, h ecs.Entity, ent *E
 		if sum != st.Entities.Used {
 			s.violate("C19", "stats.invariants", "in_callback/sum_arch", false, "inside a %s callback of %s: sum of archetype sizes %d != Entities.Used %d", EvName(o.Spec.Ev), t.kind, sum, st.Entities.Used)
 		}
+	case CbOtherWorld:
+		// the callback works on another world of the process (batch operations over several
+		// tables there): worlds are independent, the operation that is running here must not notice
+		w2 := s.scratchWorld()
+		if p, val := s.call(func() {
+			m2 := ecs.NewMap2[T02, T03](w2)
+			m2.NewBatch(3, &T02{V: 1}, &T03{})
+			ecs.NewMap1[T02](w2).NewBatch(2, &T02{V: 2})
+			ecs.NewMap1[T04](w2).AddBatch(ecs.NewFilter1[T02](w2).Batch(), &T04{})
+			par := w2.NewEntity()
+			mr := ecs.NewMap2[T02, T12](w2)
+			mr.NewBatch(2, &T02{V: 3}, &T12{}, ecs.RelIdx(1, par))
+			mr.SetRelationsBatch(ecs.NewFilter2[T02, T12](w2).Batch(), nil, ecs.RelIdx(1, ecs.Entity{}))
+			w2.RemoveEntities(ecs.NewFilter0(w2).Batch(), nil)
+		}); p {
+			s.violate("C06", "batch.equiv", "other_world_in_callback", false, "batch operations on another world from inside a %s callback of %s panicked: %v", EvName(o.Spec.Ev), t.kind, val)
+		}
 	case CbGC:
 		ForceGC(1)
 	case CbStructural:
